@@ -689,7 +689,7 @@ def _is_empty(it, args, dty, func):
     return len(seq_of(v).f) == 0
 
 
-@model("core::slice::<impl [T]>::starts_with")
+@model("core::slice::<impl [T]>::starts_with", "core::str::<impl str>::starts_with")       # str: with a &str pattern (same bytes)
 def _starts_with(it, args, dty, func):
     a, b = as_slice(args[0]), as_slice(args[1])
     if b.len > a.len:
